@@ -35,7 +35,7 @@
      may span lines in parentheses opened anywhere, the usual `SOA ( … )` style included);
      `$ORIGIN`, `$TTL` and `$INCLUDE` directive lines, with general gaps too (the latter yield the include request with
      the path — a quoted or unquoted string — and the origin given or current); blank and
-     comment-only lines; every line ending LF or CRLF;
+     comment-only lines; every line ending LF or CRLF, the last one possibly with the file;
    * whole files of such entries: exactly the denoted records, in order, with line numbers
      (`C23_records_partial`).
   NOT PROVED (the gap; the name says `_partial`)
@@ -123,57 +123,62 @@ theorem C23_generic_rdata (ctx : Ctx) (cls ty : Nat) (h41 : ty ≠ 41) (h250 : t
 /-- **RDATA**, generic or typed (the kinds of `PRdata`: `\#`, A, one-name types, MX, SOA, MINFO,
     SRV, TXT, HINFO, AAAA), with any well-formed gaps — blanks, parentheses, line ends and comments
     inside parentheses — before (`G 0`), inside (`G (i+1)`) and after it (`tg`), up to the end of
-    the line (LF or CRLF): the text is read as the RDATA it denotes; the line count advances by
-    the line ends inside gaps, names and strings plus one, and the parentheses are closed.
+    the line (LF, CRLF, or the end of the file): the text is read as the RDATA it denotes; the line
+    count advances by the line ends inside gaps, names and strings plus that of the line end, and
+    the parentheses are closed.
     `S i` is "inside parentheses" before gap `i`. -/
 theorem C23_rdata_partial (ctx : Ctx) (hctx : CtxWF ctx) (cls ty : Nat) (h41 : ty ≠ 41) (h250 : ty ≠ 250)
-    (G : Nat → PGap) (S : Nat → Bool) (tg : PGap) (cmt : List UInt8) (crlf : Bool) (r : List UInt8)
-    (rd : PRdata) (hG : ∀ i, i ≤ rdataGaps rd → GapOK (G i) (S i) (S (i + 1)))
+    (G : Nat → PGap) (S : Nat → Bool) (tg : PGap) (cmt : List UInt8) (eol : PEol) (r : List UInt8)
+    (he : eol = .eof → r = []) (rd : PRdata) (hG : ∀ i, i ≤ rdataGaps rd → GapOK (G i) (S i) (S (i + 1)))
     (hT : TailOK tg cmt (S (rdataGaps rd + 1))) (hwf : WFRdata rd)
     (hk : kindOK cls ty rd = true) (w : List UInt8) (hw : rdataWire ctx.origin rd = some w)
     (hv : ∀ g, rd = .generic g → Rdata.validate cls ty g.toArray = .ok ()) (line : Nat) :
     parseRdata ctx cls ty
-      ⟨gapText (G 0) ++ (rdataText (fun i => G (i + 1)) rd ++ (tailText tg cmt crlf ++ r)), line, S 0⟩ =
-      .ok (w, ⟨r, line + gapLines (G 0) + rdataLines (fun i => G (i + 1)) rd + gapLines tg + 1, false⟩) :=
-  parseRdata_render ctx hctx cls ty h41 h250 G S tg cmt crlf r rd hG hT hwf hk w hw hv line
+      ⟨gapText (G 0) ++ (rdataText (fun i => G (i + 1)) rd ++ (tailText tg cmt eol ++ r)), line, S 0⟩ =
+      .ok (w, ⟨r, line + gapLines (G 0) + rdataLines (fun i => G (i + 1)) rd + gapLines tg + eolLines eol, false⟩) :=
+  parseRdata_render ctx hctx cls ty h41 h250 G S tg cmt eol r he rd hG hT hwf hk w hw hv line
 
 /-- **Gaps and line ends** (the lexical layer): a well-formed gap is skipped up to the next
     field, with the line count and parenthesis state it implies; the end of a record or line —
-    a gap that leaves the parentheses, an optional comment, LF or CRLF — is recognised as such -/
+    a gap that leaves the parentheses, an optional comment, LF, CRLF or the end of the file — is
+    recognised as such -/
 theorem C23_gaps (thr : Bool) (g : PGap) (p p' : Bool) (hg : GapOK g p p') (X : List UInt8) (hX : Starts X)
-    (tg : PGap) (cmt : List UInt8) (q : Bool) (hT : TailOK tg cmt q) (crlf : Bool) (r : List UInt8) (line : Nat) :
+    (tg : PGap) (cmt : List UInt8) (q : Bool) (hT : TailOK tg cmt q) (eol : PEol) (r : List UInt8)
+    (he : eol = .eof → r = []) (line : Nat) :
     fieldOrEol thr (gapText g ++ X) line p = .ok (.Field, ⟨X, line + gapLines g, p'⟩) ∧
-    fieldOrEol true (tailText tg cmt crlf ++ r) line q = .ok (.Eol, ⟨r, line + gapLines tg + 1, false⟩) :=
-  ⟨fieldOrEol_gapG thr g p p' hg.wf hg.run X hX line, fieldOrEol_tail tg cmt q hT crlf r line⟩
+    fieldOrEol true (tailText tg cmt eol ++ r) line q = .ok (.Eol, ⟨r, line + gapLines tg + eolLines eol, false⟩) :=
+  ⟨fieldOrEol_gapG thr g p p' hg.wf hg.run X hX line, fieldOrEol_tail tg cmt q hT eol r he line⟩
 
 example : fieldOrEol false (gapText [.blank false, .openParen, .newline [59, 120] true, .blank true] ++ [97]) 1 false =
       .ok (.Field, ⟨[97], 2, true⟩) ∧
-    fieldOrEol true (tailText [.newline [] false, .closeParen, .blank false] [59, 120] true ++ [97]) 1 true =
+    fieldOrEol true (tailText [.newline [] false, .closeParen, .blank false] [59, 120] .crlf ++ [97]) 1 true =
       .ok (.Eol, ⟨[97], 3, false⟩) :=
   C23_gaps false [.blank false, .openParen, .newline [59, 120] true, .blank true] false true
     (GapOK_of_B (by decide)) [97] ⟨97, [], rfl, .inr (by decide)⟩
-    [.newline [] false, .closeParen, .blank false] [59, 120] true (TailOK_of_B (by decide)) true [97] 1
+    [.newline [] false, .closeParen, .blank false] [59, 120] true (TailOK_of_B (by decide)) .crlf [97]
+    (by intro h; cases h) 1
 
 /-! ### records and files -/
 
 /-- one record line ↦ the record it denotes, and the context it leaves -/
 theorem C23_record_partial (ctx : Ctx) (hctx : CtxWF ctx) (p : PRecord) (hwf : WFRecord p) (line : Nat)
-    (r : List UInt8) (sr : SRecord) (sc' : SCtx)
+    (r : List UInt8) (he : p.eol = .eof → r = []) (sr : SRecord) (sc' : SCtx)
     (hden : denoteRecord validB (toSCtx ctx) line p = some (sr, sc')) :
     ∃ ctx', parseLine ctx ⟨renderRecord p ++ r, line, false⟩ =
         .ok ((some (.record sr.line ⟨sr.owner, sr.ttl, sr.cls, sr.ty, sr.rdata⟩), ctx'),
-             ⟨r, line + recordLines p + 1, false⟩) ∧
+             ⟨r, line + recordLines p + eolLines p.eol, false⟩) ∧
       toSCtx ctx' = sc' :=
-  parseLine_record ctx hctx p hwf line r sr sc' hden
+  parseLine_record ctx hctx p hwf line r he sr sc' hden
 
 /-- **Whole files (the subset above).**  For every list of well-formed entries and every
-    well-formed initial context in which the file denotes the records `srs` (`validB`: RDATA
+    well-formed initial context in which the file denotes the records `srs` (`EolsOK`: only the
+    last line may end with the file instead of a line end; `validB`: RDATA
     written in RFC 3597 form must be valid for its class and type, as RFC 3597 §5 asks): the
     parser yields exactly `srs`, in order, with their line numbers, and nothing else. -/
-theorem C23_records_partial (es : List PEntry) (hwf : ∀ e ∈ es, WFEntry e) (ctx : Ctx) (hctx : CtxWF ctx)
-    (srs : List SItem) (hden : denoteFile validB es (toSCtx ctx) 1 = some srs) :
+theorem C23_records_partial (es : List PEntry) (hwf : ∀ e ∈ es, WFEntry e) (heols : EolsOK es) (ctx : Ctx)
+    (hctx : CtxWF ctx) (srs : List SItem) (hden : denoteFile validB es (toSCtx ctx) 1 = some srs) :
     parseAll (renderFile es) ctx = srs.map itemOf :=
-  collect_file es hwf ctx hctx 1 srs hden
+  collect_file es hwf heols ctx hctx 1 srs hden
 
 /-! ### non-vacuity -/
 
@@ -202,34 +207,34 @@ private def sD : PString := ⟨false, [(100, .dec)]⟩
     `$ORIGIN t.¶` `a\.b.\010c. iN 5 TYPE1 \# 4 01020304 ;x¬` `→¬` ` →TYPE16→\#(2;h¶ 0161)¶` `$TTL→(;x¶ 9 )¬`
     `w CLASS3 TYPE99 \# 0¶` `@ Ns a¶` ` mx 10 m\\\¶.\120.¶` ` SOA @ a ( 1 ;s¬ 2¶→3 4 4294967295 ) ;d¶`
     `a→( 7;¶→iN ) Srv 1 2 3 @¶` ` MINFO a m\\\¶.\120. ;¶` ` a (192.0.2.1)¬` ` (txt "a¶b\"" c\;d¬ \100)¶`
-    ` Hinfo "" \100¶` ` aAaA 2001:db8:0:0:0:0:ff:ffff¶` `$INCLUDE "x y" (a)¶` `$INCLUDE→z ;¬` -/
+    ` Hinfo "" \100¶` ` aAaA 2001:db8:0:0:0:0:ff:ffff¶` `$INCLUDE "x y" (a)¶` `$INCLUDE→z ;` (no line end) -/
 def exFile : List PEntry :=
-  [.origin [[(116, .raw)]] [.blank false] [] [] false,
+  [.origin [[(116, .raw)]] [.blank false] [] [] .lf,
    .record ⟨.named (.abs [[(97, .raw), (46, .esc), (98, .raw)], [(10, .dec), (99, .raw)]]), some 5,
-      some (.mnemonic [105, 78] 1), true, .generic 1, .generic [1, 2, 3, 4], [], [], [.blank false], [59, 120], true⟩,
-   .blank [9] [] true,
+      some (.mnemonic [105, 78] 1), true, .generic 1, .generic [1, 2, 3, 4], [], [], [.blank false], [59, 120], .crlf⟩,
+   .blank [9] [] .crlf,
    .record ⟨.same, none, none, false, .generic 16, .generic [1, 97], [[.blank false, .blank true]],
-      [[.blank true], [.openParen], [.newline [59, 104] false, .blank false]], [.closeParen], [], false⟩,
-   .ttl 9 [.blank true, .openParen, .newline [59, 120] false] [.blank false, .closeParen] [] true,
-   .record ⟨.named (.rel [] [(119, .raw)]), none, some (.generic 3), false, .generic 99, .generic [], [], [], [], [], false⟩,
-   .record ⟨.named .atSign, none, none, true, .mnemonic [78, 115] 2, .name nA, [], [], [], [], false⟩,
-   .record ⟨.same, none, none, true, .mnemonic [109, 120] 15, .mx 10 nMail, [], [], [], [], false⟩,
+      [[.blank true], [.openParen], [.newline [59, 104] false, .blank false]], [.closeParen], [], .lf⟩,
+   .ttl 9 [.blank true, .openParen, .newline [59, 120] false] [.blank false, .closeParen] [] .crlf,
+   .record ⟨.named (.rel [] [(119, .raw)]), none, some (.generic 3), false, .generic 99, .generic [], [], [], [], [], .lf⟩,
+   .record ⟨.named .atSign, none, none, true, .mnemonic [78, 115] 2, .name nA, [], [], [], [], .lf⟩,
+   .record ⟨.same, none, none, true, .mnemonic [109, 120] 15, .mx 10 nMail, [], [], [], [], .lf⟩,
    .record ⟨.same, none, none, true, .mnemonic [83, 79, 65] 6, .soa .atSign nA 1 2 3 4 4294967295, [],
       [[.blank false], [.blank false], [.blank false, .openParen, .blank false],
        [.blank false, .newline [59, 115] true, .blank false], [.newline [] false, .blank true]],
-      [.blank false, .closeParen, .blank false], [59, 100], false⟩,
+      [.blank false, .closeParen, .blank false], [59, 100], .lf⟩,
    .record ⟨.named nA, some 7, some (.mnemonic [105, 78] 1), false, .mnemonic [83, 114, 118] 33,
       .srv 1 2 3 .atSign,
       [[.blank true, .openParen, .blank false], [.newline [59] false, .blank true], [.blank false, .closeParen, .blank false]],
-      [], [], [], false⟩,
-   .record ⟨.same, none, none, true, .mnemonic [77, 73, 78, 70, 79] 14, .minfo nA nMail, [], [], [.blank false], [59], false⟩,
-   .record ⟨.same, none, none, true, .mnemonic [97] 1, .a 192 0 2 1, [], [[.blank false, .openParen]], [.closeParen], [], true⟩,
+      [], [], [], .lf⟩,
+   .record ⟨.same, none, none, true, .mnemonic [77, 73, 78, 70, 79] 14, .minfo nA nMail, [], [], [.blank false], [59], .lf⟩,
+   .record ⟨.same, none, none, true, .mnemonic [97] 1, .a 192 0 2 1, [], [[.blank false, .openParen]], [.closeParen], [], .crlf⟩,
    .record ⟨.same, none, none, true, .mnemonic [116, 120, 116] 16, .txt sQ [sU, sD], [[.blank false, .openParen]],
-      [[.blank false], [.blank false], [.newline [] true, .blank false]], [.closeParen], [], false⟩,
-   .record ⟨.same, none, none, true, .mnemonic [72, 105, 110, 102, 111] 13, .hinfo ⟨true, []⟩ sD, [], [], [], [], false⟩,
-   .record ⟨.same, none, none, true, .mnemonic [97, 65, 97, 65] 28, .aaaa [8193, 3512, 0, 0, 0, 0, 255, 65535], [], [], [], [], false⟩,
-   .incl ⟨true, [(120, .raw), (32, .raw), (121, .raw)]⟩ (some nA) [.blank false] [.blank false, .openParen] [.closeParen] [] false,
-   .incl ⟨false, [(122, .raw)]⟩ none [.blank true] [] [.blank false] [59] true]
+      [[.blank false], [.blank false], [.newline [] true, .blank false]], [.closeParen], [], .lf⟩,
+   .record ⟨.same, none, none, true, .mnemonic [72, 105, 110, 102, 111] 13, .hinfo ⟨true, []⟩ sD, [], [], [], [], .lf⟩,
+   .record ⟨.same, none, none, true, .mnemonic [97, 65, 97, 65] 28, .aaaa [8193, 3512, 0, 0, 0, 0, 255, 65535], [], [], [], [], .lf⟩,
+   .incl ⟨true, [(120, .raw), (32, .raw), (121, .raw)]⟩ (some nA) [.blank false] [.blank false, .openParen] [.closeParen] [] .lf,
+   .incl ⟨false, [(122, .raw)]⟩ none [.blank true] [] [.blank false] [59] .eof]
 
 /-- the example file is well-formed and denotes twelve records and two include requests -/
 theorem exFile_ok :
@@ -266,7 +271,7 @@ theorem exFile_ok :
     · intro n hn; cases hn
       exact ⟨⟨by simp, by decide, by simp [LabelsOK, labelOctets], by decide⟩, by decide⟩
     · intro c hc; cases hc; exact mIN
-  · exact ⟨by decide, .inl rfl⟩
+  · exact ⟨by decide, .inl rfl, by decide⟩
   · exact ⟨noOwner, by decide, (by intro c hc; cases hc),
       ⟨by simp [WFType], by decide, by decide, by decide⟩, by simp [WFRdata], gaps_ok_of_B _ (by decide)⟩
   · exact ⟨by decide, true, GapOK_of_B (by decide), TailOK_of_B (by decide)⟩
@@ -324,24 +329,25 @@ example : parseAll (renderFile exFile) {} =
      .item (.record 24 ⟨[1, 97, 1, 116, 0], 9, 1, 28, [32, 1, 13, 184, 0, 0, 0, 0, 0, 0, 0, 0, 0, 255, 255, 255]⟩),
      .item (.incl 25 [120, 32, 121] (some [1, 97, 1, 116, 0])),
      .item (.incl 26 [122] (some [1, 116, 0]))] := by
-  rw [C23_records_partial exFile exFile_ok.1 {} CtxWF_default _ exFile_ok.2]
+  rw [C23_records_partial exFile exFile_ok.1 (by simp [exFile, EolsOK, entryEol]) {} CtxWF_default _ exFile_ok.2]
   rfl
 
 /-- the same file, evaluated directly: the text is what it is meant to be and the parser yields
     twelve records and two include requests -/
 example : (parseAll (renderFile exFile) {}).length = 14 := by decide +kernel
 
-/-- RDATA alone: ` ( 10 ;x<CRLF> a )` after the type field of an MX record, origin `t.` -/
+/-- RDATA alone: ` ( 10 ;x<CRLF> a )` and then the end of the file, after the type field of an MX
+    record, origin `t.` -/
 example : parseRdata { origin := some [1, 116, 0] } 1 15
     ⟨gapText [.blank false, .openParen, .blank false] ++
       (rdataText (fun _ => [.blank false, .newline [59, 120] true, .blank false]) (.mx 10 nA) ++
-        (tailText [.blank false, .closeParen] [] false ++ [])), 1, false⟩ =
-    .ok ([0, 10, 1, 97, 1, 116, 0], ⟨[], 3, false⟩) := by
+        (tailText [.blank false, .closeParen] [] .eof ++ [])), 1, false⟩ =
+    .ok ([0, 10, 1, 97, 1, 116, 0], ⟨[], 2, false⟩) := by
   have h := C23_rdata_partial { origin := some [1, 116, 0] }
     ⟨by intro o ho; cases ho; exact ⟨[[116]], by simp [LabelsOK], by decide, by decide⟩, by simp⟩
     1 15 (by decide) (by decide)
     (fun i => if i = 0 then [.blank false, .openParen, .blank false] else [.blank false, .newline [59, 120] true, .blank false])
-    (fun i => decide (1 ≤ i)) [.blank false, .closeParen] [] false [] (.mx 10 nA)
+    (fun i => decide (1 ≤ i)) [.blank false, .closeParen] [] .eof [] (fun _ => rfl) (.mx 10 nA)
     (by
       intro i hi
       have : i = 0 ∨ i = 1 := by simp [rdataGaps] at hi; omega
@@ -349,11 +355,11 @@ example : parseRdata { origin := some [1, 116, 0] } 1 15
     (TailOK_of_B (by decide))
     ⟨by decide, by unfold nA WFName; exact ⟨by decide, by simp [LabelsOK, labelOctets], by decide⟩⟩
     (by decide) [0, 10, 1, 97, 1, 116, 0] (by decide) (by intro g hg; cases hg) 1
-  simpa [rdataLines, gapLines, nameLines, nA, labelLines] using h
+  simpa [rdataLines, gapLines, nameLines, nA, labelLines, eolLines] using h
 
 private def exRec : PRecord :=
   ⟨.same, none, none, true, .mnemonic [109, 120] 15, .mx 10 nA, [], [[.blank false, .openParen]],
-    [.newline [] true, .closeParen], [], false⟩
+    [.newline [] true, .closeParen], [], .lf⟩
 
 /-- one record: ` mx (10 a<CRLF>)<LF>` with previous owner `t.`, TTL 9, class 1 — two lines -/
 example : ∃ ctx', parseLine { origin := some [1, 116, 0], prevOwner := some [1, 116, 0], prevTtl := some 9, prevClass := some 1 }
@@ -367,7 +373,7 @@ example : ∃ ctx', parseLine { origin := some [1, 116, 0], prevOwner := some [1
       ⟨by decide, by unfold nA WFName; exact ⟨by decide, by simp [LabelsOK, labelOctets], by decide⟩⟩,
       gaps_ok_of_B _ (by decide)⟩
   exact C23_record_partial _ ⟨by intro o ho; cases ho; exact hT, by intro o ho; cases ho; exact hT⟩ exRec hwf
-    1 [] ⟨1, [1, 116, 0], 9, 1, 15, [0, 10, 1, 97, 1, 116, 0]⟩ _ (by decide +kernel)
+    1 [] (by intro h; cases h) ⟨1, [1, 116, 0], 9, 1, 15, [0, 10, 1, 97, 1, 116, 0]⟩ _ (by decide +kernel)
 
 /-- a name field: `a\.b` relative to `t.` -/
 example : parseName (some [1, 116, 0]) ⟨nameText (.rel [] [(97, .raw), (46, .esc), (98, .raw)]) ++ [10], 1, false⟩ =
